@@ -49,6 +49,7 @@ func toBuilt(p *world.Party) bool {
 
 func (C15) Gen(r *simrt.RNG, tier string) core.Case {
 	cfg := world.SwarmCfg(r)
+	world.Deepen(&cfg, r, tier)
 	cfg.Gens = false
 	cfg.Structs = true
 	cfg.Names = r.Chance(3, 4)
